@@ -24,6 +24,16 @@ def _act(m):
     return m.method(D, 'handle_activate', inherited=False)
 
 
+def _act_unit(m):
+    """handle_activate and the private helper methods it calls: [(function, call site in handle_activate | None)]"""
+    f = _act(m)
+    out = [(f, None)]
+    for site, h in helper_methods_called(m, f):
+        if h.name.startswith('_') and not h.name.endswith('__') and all(h is not g for g, _ in out):
+            out.append((h, site))
+    return out
+
+
 def _is_snapshot_send(c):
     return call_attr(c) == 'send_reply' and bool(c.args) and isinstance(c.args[0], ast.Call) and call_attr(c.args[0]) == 'make_update'
 
@@ -40,7 +50,7 @@ def _snapshot_sends(f, m=None):
     return [c for c in calls_in(f.node) if _is_snapshot_send(c)]
 
 
-def _registrations(f):
+def _registrations(f, own_only=False):
     res = []
     for c in calls_in(f.node):
         if call_attr(c) == 'subscribe' and c.args and src(c.args[0]) == 'conn':
@@ -48,6 +58,12 @@ def _registrations(f):
         if call_attr(c) == 'add' and isinstance(c.func, ast.Attribute) and '_active_connections' in src(c.func.value) \
                 and c.args and src(c.args[0]) == 'conn':
             res.append(c)
+    if not res and not own_only and f.cls is not None:
+        # the registration may have been extracted: the call of a private helper of the same class that registers stands for it
+        for c in calls_in(f.node):
+            if isinstance(c.func, ast.Attribute) and dotted(c.func.value) == 'self' and c.func.attr.startswith('_') and c.func.attr in f.cls.methods \
+                    and _registrations(f.cls.methods[c.func.attr], own_only=True):
+                res.append(c)
     return res
 
 
@@ -300,8 +316,15 @@ def scope_check_before_registration(ctx):
     cfg = CFG(f.node, m, f.module)
     regs = [i for c in _registrations(f) if call_attr(c) == 'subscribe' for i in cfg.node_of(c)]
     raises = [n for n in body_walk(f.node) if isinstance(n, ast.Raise) and n.exc is not None and 'NoSuch' in src(n.exc)]
-    if not raises:
+    # the scope check may live in a helper (`items = [self._single_item(specifier)]`): the helper call stands for its refusals
+    helper_raises = [site for g, site in _act_unit(m) if site is not None and
+                     any(isinstance(n, ast.Raise) and n.exc is not None and 'NoSuch' in src(n.exc) for n in body_walk(g.node))]
+    if not raises and not helper_raises:
         raise AnchorMissing('no NoSuch... refusal in handle_activate', violation='frappy.protocol.dispatcher.Dispatcher.handle_activate:scope refusal present')
+    for r in helper_raises:
+        ok = not (cfg.reach(regs) & set(cfg.node_of(r)))
+        ctx.check(ok, f'{f.qualname}:refusal before registration', r, 'the refusal can not happen after subscribe',
+                  'the refusal is reachable after subscribe(): the request is refused but the subscription stays registered', f)
     for r in raises:
         ok = not (cfg.reach(regs) & set(cfg.ids(r)))
         ctx.check(ok, f'{f.qualname}:refusal before registration', r, 'the refusal can not happen after subscribe',
@@ -341,13 +364,23 @@ def snapshot_covers_broadcast(ctx):
         for a in ancestors(c):
             if isinstance(a, ast.If) and '.export' in src(a.test) and 'Parameter' in src(a.test):
                 ok = True
+    if not ok:
+        # the selection of the parameters may live in a helper that generates them: a condition (if statement or comprehension
+        # filter) there that asks for an exported Parameter
+        for g, site in _act_unit(m):
+            for x in ast.walk(g.node):
+                conds = [x.test] if isinstance(x, (ast.If, ast.IfExp)) else (list(x.ifs) if isinstance(x, ast.comprehension) else [])
+                if any('.export' in src(t) and 'Parameter' in src(t) for t in conds):
+                    ok = True
     ctx.check(ok, f'{f.qualname}:snapshot predicate', f.node, 'exported parameters only',
               'the module snapshot is not restricted to exported parameters (or not to parameters)', f)
-    notif = func_calls(funnel.node, attr='updateCallback')
+    from sa.rules.c05 import funnel_unit
+    notif = [c for g, site in funnel_unit(m) for c in func_calls(g.node, attr='updateCallback')]
     ok = all(any(isinstance(a, ast.If) and src(a.test).endswith('.export') for a in ancestors(c)) for c in notif)
     ctx.check(ok and bool(notif), f'{funnel.qualname}:broadcast predicate', funnel.node, 'notification guarded by pobj.export',
               'updates of unexported parameters are broadcast (or the guard differs from the snapshot predicate)', funnel)
-    glob = [n for n in body_walk(f.node) if isinstance(n, ast.Assign) and src(n.targets[0]) == 'modules' and 'secnode' in src(n.value)]
+    glob = [n for g, site in _act_unit(m) for n in body_walk(g.node) if isinstance(n, (ast.Assign, ast.Return)) and n.value is not None and 'secnode' in src(n.value)
+            and ('.modules' in src(n.value) or '.export' in src(n.value)) and 'get(' not in src(n.value)]
     ctx.check(any('secnode.export' in src(n.value) for n in glob), f'{f.qualname}:global scope is the exported set', f.node,
               'modules = exported modules', 'a global activate does not iterate secnode.export', f)
 
@@ -578,6 +611,7 @@ def scope_refusals_have_the_right_polarity(ctx):
         ctx.analysed(f)
         cfg = CFG(f.node, m, f.module)
         regs = {i for c in calls_in(f.node) if call_attr(c) in ('subscribe', 'unsubscribe', 'add', 'discard') for i in cfg.node_of(c)}
+        regs |= {i for c in _registrations(f) for i in cfg.node_of(c)}
         for t in cfg.nodes:
             if t.kind != 'test':
                 continue
